@@ -93,8 +93,9 @@ theorem compDispLoop_count (rs : List Nat) (acc : List (Option Int)) (s : State)
     have hr : r < s.heap.length := hrs r (by simp)
     simp only [compDispLoop]
     split
-    · have := ih (acc ++ [none]) s (fun r' h' => hrs r' (by simp [h']))
-      simpa using this
+    · have := ih (acc ++ [none]) (s.setObj r { s.obj r with toDisplace := none })
+        (fun r' h' => by simp only [State.setObj, List.length_set]; exact hrs r' (by simp [h']))
+      simpa [State.setObj] using this
     · rcases hch : choice (setdiff (uniqueLabels (s.obj r).labels) (acc.filterMap id)) 0 s.inp with ⟨l, i⟩
       simp only []
       generalize hs1 : (({ s with inp := i } : State).setObj r { s.obj r with toDisplace := some l }) = s1
